@@ -10,6 +10,15 @@ pub trait UpdateFromDownlink<T> {
 
 impl UpdateFromDownlink<DF> for Plane {
     fn update_from_downlink(&mut self, dl: &DF) {
+        // every accepted frame restarts the last-contact age, as Plane::update does
+        self.timestamp = chrono::Utc::now();
+        if let Some(df) = match dl {
+            DF::SRT(v) => v.df,
+            DF::EXT(v) => v.df,
+            DF::MDS(v) => v.df,
+        } {
+            self.last_df = df;
+        }
         match dl {
             DF::SRT(v) => self.update_from_downlink(v),
             DF::EXT(v) => self.update_from_downlink(v),
